@@ -531,11 +531,13 @@ def mps_query_args(N):
     """one- and two-site arguments in both orders (and a bare integer), adjacent and non-adjacent"""
     if N == 3:
         return dict(keep=(1, (0,), (0, 1), (1, 0), (2, 0), (0, 2)), where=(1, (2,), (0, 1), (1, 0), (2, 0), (0, 2)),
-                    # (where, fix, decided symbolically?)
-                    marg=(((1,), None, True), ((2, 0), None, True), ((0, 1, 2), None, True), ((2, 1), {0: "0"}, True),
-                          ((1,), {0: "1", 2: "0"}, True), ((1,), {0: "1"}, False)))
+                    # (where, fix, decided symbolically?)  with fix the library rescales every tensor by the float
+                    # nfact ** (1 / (2 * ntensors)) for numerical stability: equal to floating point only -> numeric runs
+                    marg=(((1,), None, True), ((2, 0), None, True), ((0, 1, 2), None, True), ((2, 1), {0: "0"}, False),
+                          ((1,), {0: "1", 2: "0"}, False), ((1,), {0: "1"}, False)))
     return dict(keep=(3, (1, 2), (2, 1), (3, 0), (0, 3), (1, 3)), where=(0, (3,), (1, 2), (2, 1), (3, 0), (0, 2)),
-                marg=(((3,), None, True), ((2, 0), None, True), ((1, 3), {0: "1", 2: "0"}, True), ((2,), {3: "0"}, False)))
+                marg=(((3,), None, True), ((2, 0), None, True), ((1, 0, 3, 2), None, True), ((1, 3), {0: "1", 2: "0"}, False),
+                      ((2,), {3: "0"}, False)))
 
 
 @obligation(PROP, params=_MP, rounds=2, timeout_s=500, wall_s=400, max_rows=80000)
@@ -610,8 +612,8 @@ def mps_simulators(mk, sim, prog, q):
         elif q == "marginal":
             for where, fix, symbolic in qa["marg"]:
                 if mk.sym and not symbolic:
-                    # abs(.) / nfact of a complex-symbol expression needs a sign decision the engine cannot make:
-                    # this argument combination runs in the numeric cross-run / replays only
+                    # fix=...: float rescaling inside the library (equal to floating point only): this argument
+                    # combination runs in the numeric cross-run / replays only
                     continue
                 m = np.asarray(circ.compute_marginal(where, fix=fix))
                 for nm, vv in targets:
